@@ -17,7 +17,7 @@ from mc.common import FAMILIES, grid_rects, xinter, center_shape, reset_frame_st
 ID = 'C06'
 LEVEL = 'exploration'
 RULE = ("all ordered lists with repetition, length 1..3 (quick) / 1..4 (thorough), of the 36 rectangles of a 4x4-point "
-        "grid (families HALF, DEC1, DEC3, and HALF / DEC1 translated by 20000 / 1000: coordinates 1e4 times the sizes) and length 1..2 (+ length 3 on the 1/1.001 sub-alphabet) of the 100 rectangles of the near-miss grid "
+        "grid (families HALF, DEC1, DEC3, and HALF / DEC1 translated by 20000 / 1000: coordinates 1e4 times the sizes; 2.7-unit steps at 541365.3; near misses of 3 units between rectangles of 2000 units, through Netlist loading) and length 1..2 (+ length 3 on the 1/1.001 sub-alphabet) of the 100 rectangles of the near-miss grid "
         "{0,1,1.001,2,3}; non-trivial = lists of >=2 rectangles in which at least one rectangle has all the others touching it "
         "(a trunk candidate: orthogons and near misses), distinct by construction")
 ASSUMPTIONS = ["distance tolerance as a netlist load sets it (1e-12 * smallest side); near misses are 1e-3, far above it",
@@ -31,7 +31,14 @@ FAMS = dict(HALF=FAMILIES['HALF'], DEC1=FAMILIES['DEC1'], DEC3=FAMILIES['DEC3'],
 # derived from the smallest side (1e-12 * side) is below one ulp of the coordinates
 FAMS.update(HALF_FAR=lambda i: FAMILIES['HALF'](i) + 20000, DEC1_FAR=lambda i: FAMILIES['DEC1'](i) + 1000,
             NEAR_FAR=lambda i: NEAR[i] + 20000)
-NPTS = dict(HALF=3, DEC1=3, DEC3=3, NEAR=4, HALF_FAR=3, DEC1_FAR=3, NEAR_FAR=4)    # cells per axis
+# decimal coordinates 2e5 times the sizes (a block of a few units at (541365.3, ...)): abutting sides computed from
+# centre -/+ size/2 differ by an ulp, which is far above 1e-12 * smallest side
+FAMS['DEC7_FAR6'] = lambda i: F(5413653, 10) + F(27, 10) * i
+# near misses of a few units between rectangles of thousands of units (a design in database units): any tolerance that
+# grows faster than linearly with the size of the rectangles swallows them
+NEAR_BIG = [F(0), F(2000), F(2003), F(4000), F(6000)]
+FAMS['NEAR_BIG'] = lambda i: NEAR_BIG[i]
+NPTS = dict(HALF=3, DEC1=3, DEC3=3, NEAR=4, HALF_FAR=3, DEC1_FAR=3, NEAR_FAR=4, DEC7_FAR6=3, NEAR_BIG=4)    # cells per axis
 
 
 def exact_rect(fam, r):
@@ -161,7 +168,9 @@ def check_via_netlist(case, res, fam, lst):
     for e in ex:
         cx, cy, w, h = center_shape(e)
         vecs.append([float(cx), float(cy), float(w), float(h)])
-    tree = {'Modules': {'M': {'area': 1, 'rectangles': vecs}}}
+    # the module's area is the one of its rectangles (an area out of proportion with them would dictate the tolerance)
+    area = sum(v[2] * v[3] for v in vecs)
+    tree = {'Modules': {'M': {'area': area, 'rectangles': vecs}}}
     try:
         n = Netlist(tree)
     except Exception as e:  # noqa
@@ -176,7 +185,7 @@ def check_via_netlist(case, res, fam, lst):
         from frame.geometry.geometry import parse_yaml_rectangle
         reset_frame_state()
         try:
-            n2 = Netlist({'Modules': {'M': {'area': 1, 'rectangles': vecs[:-1]}}})
+            n2 = Netlist({'Modules': {'M': {'area': area, 'rectangles': vecs[:-1]}}})
             m2 = n2.get_module('M')
             m2.add_rectangle(parse_yaml_rectangle(vecs[-1]))
             n2.create_stogs()
@@ -189,7 +198,7 @@ def check_via_netlist(case, res, fam, lst):
         # right (as the placement tools move rectangles), then recognition again -> verdict for the moved list
         reset_frame_state()
         try:
-            n3 = Netlist({'Modules': {'M': {'area': 1, 'rectangles': vecs}}})
+            n3 = Netlist({'Modules': {'M': {'area': area, 'rectangles': vecs}}})
             m3 = n3.get_module('M')
             f = FAMS[fam]
             step = float(f(1) - f(0))
@@ -262,6 +271,10 @@ def shards(tier):
         out.append(dict(fam='DEC1_FAR', L=2 if tier == 'quick' else 3, first=first, netlist=True))
     for first in range(100):
         out.append(dict(fam='NEAR_FAR', L=2 if tier == 'quick' else 3, first=first, sub=True, netlist=False))
+    for first in range(36):
+        out.append(dict(fam='DEC7_FAR6', L=2 if tier == 'quick' else 3, first=first, netlist=True))
+    for first in range(100):
+        out.append(dict(fam='NEAR_BIG', L=2 if tier == 'quick' else 3, first=first, sub=True, netlist=True))
     return out
 
 
